@@ -3,6 +3,7 @@ CONSTANTS Rounding = "down"  WindowEnd = "open"  EmptyReasons = "all"
 CONSTANTS Horizon <- MC_Horizon  Schedules <- MC_Schedules  Durations <- MC_Durations
           Percents <- MC_Percents  Counts <- MC_Counts  Sizes <- MC_Sizes  Reasons <- MC_Reasons
           ListAlphabet <- MC_ListAlphabet  ListInstants <- MC_ListInstants
+          BadCrons <- MC_BadCrons  BadNodes <- MC_BadNodes  NoHitCrons <- MC_NoHitCrons  PctSizes <- MC_PctSizes
 SPECIFICATION CaseSpec
 INVARIANTS TypeOK Inv_C05_UpperBound Inv_C05_Attained Inv_C05_Monotone Inv_C05_OrderFree Inv_C05_Ceil
            Inv_C05_HalfOpen Inv_C05_EmptyListsNone Inv_C05_MalformedZero
